@@ -62,7 +62,7 @@ CHECKS["C06"] = ("cursor", "exploration",
    "Trusted: harness and its model. Decoded numeric values are not asserted (C05's business), only how far the cursor moved. `find` is modelled on byte-aligned rests only (it refuses others by design).",
    "DESIGN.md §5 C06")
 
-CHECKS[] = ("chaos", "exploration",
+CHECKS["C08"] = ("chaos", "exploration",
    "deterministic simulation with fault injection over API call sequences: one long-lived interpreter is driven by seeded sequences of eval / compile / run / next / rnext / error formatting / value formatting / disassembly / set-input / limit setters / recording toggle / clone, inside a simulated environment (stdout sink that breaks after n bytes, virtual files that are missing / unreadable / not UTF-8, stub child process, PRNG entropy); oracle = every call returns (panics caught, aborts and hangs seen by the supervising process); both overflow-check configurations",
    "Seeded exploration of call sequences with limit trips and environment faults firing inside words, in the release and the overflow-checked build. Two thirds of this property is input-space robustness (every word x every argument class): that part is covered by sampling a word x 0..3 arguments from 57 value classes as the workload corpus and is labelled as input enumeration by sampling, not as simulation. Every failure is minimised and replays exactly, in the build it was found in.",
    "Trusted: harness, panic hook, supervisor. Proviso of the statement honoured: instruction and stack limits are always set; words whose argument is an allocation size (int!, uint!, random-bits, d2-resize) only get modest sizes. The terminal / line editor and the real file system are not exercised (stubs).",
